@@ -475,6 +475,12 @@ struct Gen {
     std::string genString(bool mustQuote) {
         static const std::vector<std::string> bare = { "W1", "PROD1", "OPEN", "SHUT", "G1", "FIELD", "ORAT", "X-1", "A_B", "OIL", "WATER", "GAS", "INJ", "NO", "YES", "P*", "W_2", "JAN", "RATE", "opm", "Well7" };
         static const std::vector<std::string> quoted = { "W1", "A B", "P*", "*", "a/b", "x -- y", " lead", "trail ", "", "1*", "3*X", "/", "OIL", "PROD 1 /", "two  blanks", "-- c", "G1", "FIELD", "1.5", "a,b", "\tT" };
+        // the other quote character inside a quoted string: find_terminator (comments, terminating slash) pairs a
+        // quote with the next EQUAL quote character only.  Odd and even counts of " inside '...'; even counts of '
+        // inside a bare "..." word (an odd count is rejected by even_quotes in every layout).
+        static const std::vector<std::string> dq = { "P-3.5\"", "MANI-6\" pipe", "\"", "say \"hi\"", "3\" -- 4\"", "a\"/b", "\"\"\" x" };
+        static const std::vector<std::string> bareDq = { "\"Q1\"", "\"a--b\"", "\"x/y\"", "\"it''s\"" };
+        if (rng.coin(1, 12)) { rep.count("gen.string.other_quote"); if (!mustQuote && rng.coin(1, 4)) return rng.pick(bareDq); return "'" + rng.pick(dq) + "'"; }
         if (!mustQuote && rng.coin(1, 2)) return rng.pick(bare);
         return "'" + rng.pick(quoted) + "'";
     }
@@ -711,8 +717,19 @@ struct Gen {
         for (int i = 0; i < k; ++i) {
             std::vector<std::string> t;
             switch (rng.below(4)) {
-            case 0: { t = { "DEFINE", rng.pick(q) }; int m = rng.range(1, 7); for (int j = 0; j < m; ++j) t.push_back(rng.pick(ex)); } break;
-            case 1: t = { "ASSIGN", rng.pick(q), genDouble() }; break;
+            case 0: {
+                t = { "DEFINE", rng.pick(q) };
+                // now and then a long expression (8-20 tokens) with divisions at random places: the writer must keep a
+                // raw-string record on one line ('/' is the division operator; the reader ends the record at the LAST
+                // slash of each line)
+                const bool longExpr = rng.coin(1, 3);
+                int m = longExpr ? rng.range(8, 20) : rng.range(1, 7);
+                for (int j = 0; j < m; ++j) t.push_back(longExpr && rng.coin(1, 5) ? std::string(rng.coin() ? "/" : "WOPR/2") : rng.pick(ex));
+                if (longExpr) rep.count("gen.udq.long_define");
+            } break;
+            case 1: t = { "ASSIGN", rng.pick(q), genDouble() };
+                if (rng.coin(1, 4)) { int m = rng.range(6, 18); for (int j = 0; j < m; ++j) t.insert(t.end() - 1, rng.coin(1, 4) ? std::string("'A/B'") : rng.pick(std::vector<std::string>{ "'P*'", "W1", "'OP_1'", "1", "2" })); rep.count("gen.udq.long_assign"); }
+                break;
             case 2: t = { "UNITS", rng.pick(q), rng.coin() ? "SM3/DAY" : "'SM3/DAY'" }; break;
             default: t = { "UPDATE", rng.pick(q), rng.pick(std::vector<std::string>{ "ON", "OFF", "NEXT" }) }; break;
             }
@@ -732,7 +749,13 @@ struct Gen {
         b.lines.push_back(rawLine(h, 0));
         int k = rng.range(1, 3);
         static const std::vector<std::vector<std::string>> conds = { { "WWCT", "'OPX'", ">", "0.75" }, { "FPR", "<", "100" }, { "GOPR", "'G*'", ">=", "1e3" }, { "DAY", ">", "3*" }, { "(", "FWCT", "<", "0.5", ")" } };
-        for (int i = 0; i < k; ++i) { auto c = rng.pick(conds); if (i + 1 < k) c.push_back(rng.coin() ? "AND" : "OR"); b.lines.push_back(rawLine(c, i + 1)); }
+        for (int i = 0; i < k; ++i) {
+            auto c = rng.pick(conds);
+            // long conditions with a division, more than `columns` tokens
+            if (rng.coin(1, 4)) { for (const char* x : { "/", "(", "WOPR", "'P1'", "+", "WOPR/2", ")", "*", "2" }) c.insert(c.begin() + 1, x); rep.count("gen.actionx.long_condition"); }
+            if (i + 1 < k) c.push_back(rng.coin() ? "AND" : "OR");
+            b.lines.push_back(rawLine(c, i + 1));
+        }
         b.lines.push_back(slashLine());
         rep.count("gen.class.RAWSTRING");
         present.insert("ACTIONX");
@@ -1604,6 +1627,31 @@ const std::vector<int>& shippedKinds() {
 }
 
 void prop01(Reporter& rep, Env& env) {
+    // fixed pairs of layouts of the same deck (always run): a quoted string holding the OTHER quote character,
+    // followed on the same line by a comment / by text behind the terminating slash / by further items
+    {
+        struct Pair { const char* id; std::string a, b; };
+        const std::vector<Pair> fixed = {
+            { "dq_in_sq_odd_comment", "GRUPTREE\n 'P-3.5\"' 'FIELD' /\n/\n", "GRUPTREE\n 'P-3.5\"' 'FIELD' / -- the 3.5\" string\n/\n" },
+            { "dq_in_sq_odd_after_slash", "GRUPTREE\n 'MANI-6\"' 'FIELD' /\n/\n", "GRUPTREE\n 'MANI-6\"' 'FIELD' / text 'behind / the slash\n/\n" },
+            { "dq_in_sq_odd_then_comment_with_slash", "WELSPECS\n 'P-3.5\"' 'G' 1 1 1* 'OIL' /\n/\n", "WELSPECS\n 'P-3.5\"' 'G' 1 1 1* 'OIL' -- 'a / b'\n /\n/\n" },
+            { "dq_in_sq_even_comment", "GRUPTREE\n 'say \"hi\"' 'FIELD' /\n/\n", "GRUPTREE\n 'say \"hi\"' 'FIELD' / -- \"c\" '\n/\n" },
+            { "dq_odd_two_strings", "GRUPTREE\n 'A\"' 'B -- x' /\n/\n", "GRUPTREE\n 'A\"'\n 'B -- x' / tail\n/\n" },
+            { "sq_in_bare_dq_even_comment", "GRUPTREE\n \"it''s\" 'FIELD' /\n/\n", "GRUPTREE\n \"it''s\" 'FIELD' / -- c\n/\n" },
+            { "bare_dq_with_dashes", "GRUPTREE\n \"a--b\" 'FIELD' /\n/\n", "GRUPTREE\n \"a--b\"   'FIELD' / -- c\n/\n" } };
+        for (const auto& f : fixed) {
+            Outcome oa = parseText(f.a), ob = parseText(f.b);
+            rep.count("fixed.pairs");
+            std::string key, detail;
+            if (oa.ok != ob.ok) { key = "outcome"; detail = std::string("a=") + (oa.ok ? "ok" : "err") + " b=" + (ob.ok ? "ok" : "err"); }
+            else if (oa.ok) {
+                Diff df = diffDeck(canonDeck(*oa.deck), canonDeck(*ob.deck), false);
+                if (df.differ) { key = "differs." + df.what; detail = "where={" + df.where + "}"; }
+            }
+            if (!key.empty()) rep.fail(std::string("C01.relayout.fixed.") + f.id + "." + key, "seed=" + std::to_string(env.seed) + " " + detail + " a_hex=" + vh::hex(f.a) + " b_hex=" + vh::hex(f.b));
+            else rep.ok();
+        }
+    }
     // (a)+(b) generated decks
     const int nGen = env.thorough ? 12000 : 1200;
     for (int c = 0; c < nGen; ++c) {
@@ -1699,6 +1747,14 @@ std::string causeTag(const Deck& sub, const std::string& where = std::string()) 
     const DeckKeyword& kw = sub[sub.size() - 1];
     const ParserKeyword* pk = nullptr;
     try { pk = &P().getParserKeywordFromDeckName(kw.name()); } catch (...) {}
+    // a string value holding an apostrophe (a bare word such as D''ARCY or "it''s": pairs of ' pass even_quotes) is
+    // written between apostrophes without any escape - the format has none - and comes back as several tokens
+    // (the keywords in front - TABDIMS, ENDSCALE ... - are printed and re-parsed with the keyword under test)
+    for (const auto& anyKw : sub) for (size_t ri = 0; ri < anyKw.size(); ++ri)
+        for (const auto& it : anyKw.getRecord(ri))
+            if (it.getType() == type_tag::string) {
+                try { for (const auto& v : it.getData<std::string>()) if (v.find('\'') != std::string::npos) return ".string_with_apostrophe"; } catch (...) {}
+            }
     if (kw.name() == "TITLE") {
         size_t pi = sub.size() - 1;
         while (pi > 0 && sub[pi - 1].size() == 0) --pi;
@@ -1761,6 +1817,39 @@ C19Result c19Once(const Deck& d) {
     DeckC ca = canonDeck(d), cb = canonDeck(*B.deck);
     Diff df = diffDeck(ca, cb, true);
     if (df.differ) { r.fail = true; r.stage = "roundtrip"; r.what = df.what; r.where = df.where; r.kwName = df.kwName; r.kwIndex = df.kwIndex; return r; }
+    // (a') the same round trip on a copy of the Deck on which a consumer has asked every floating point item for its
+    // SI values first (what TableManager / EclipseState / Schedule construction does): the storage is then in the
+    // SI state and DeckItem::write has to convert it back with the dimension of each column.
+    {
+        Deck used = d;
+        long touched = 0;
+        for (const auto& kw : used) for (const auto& rec : kw) for (const auto& it : rec) {
+            try {
+                if (it.getType() == type_tag::fdouble) { (void) it.getSIDoubleData(); ++touched; }
+                else if (it.getType() == type_tag::uda) { for (size_t i = 0; i < it.data_size(); ++i) { auto u = it.get<UDAValue>(i); if (u.is<double>()) (void) u.getSI(); } }
+            } catch (...) {}
+        }
+        if (touched > 0) {
+            std::string t3;
+            if (!printDeck(used, t3)) { r.fail = true; r.stage = "print_after_si"; r.what = "err"; return r; }
+            Outcome C = parseText(t3);
+            if (!C.ok) { r.fail = true; r.stage = "reparse_after_si"; r.what = "err"; r.t1 = t3; return r; }
+            DeckC cc = canonDeck(*C.deck);
+            Diff d3 = diffDeck(ca, cc, true);
+            if (d3.differ) {
+                r.fail = true; r.stage = "roundtrip_after_si"; r.what = d3.what; r.where = d3.where; r.kwName = d3.kwName; r.kwIndex = d3.kwIndex; r.t1 = t3;
+                // values at the ends of the double range leave it in SI units (DBL_MIN mD -> subnormal m2, 1.5e308 ft -> inf):
+                // the in-place conversion cannot bring them back.  Own class, like double_overflow.
+                const auto pa = d3.where.find(" a=");
+                if ((d3.what == "double" || d3.what == "uda" || d3.what == "double_overflow") && pa != std::string::npos && d3.where.size() >= pa + 19) {
+                    uint64_t bits = std::strtoull(d3.where.substr(pa + 3, 16).c_str(), nullptr, 16);
+                    double a; std::memcpy(&a, &bits, 8);
+                    if (std::isfinite(a) && a != 0.0 && (std::fabs(a) < 1e-280 || std::fabs(a) > 1e280)) r.what = "si_range";
+                }
+                return r;
+            }
+        }
+    }
     if (!p2) { r.fail = true; r.stage = "fixpoint"; r.what = "print_err"; return r; }
     if (t2 != t1) {
         r.fail = true; r.stage = "fixpoint"; r.what = "text";
@@ -1783,7 +1872,8 @@ Deck subDeck(const Deck& d, size_t i) {
 }
 
 void c19Report(Reporter& rep, const Env& env, const std::string& src, const std::string& id, const std::string& cls, const std::string& kw, const C19Result& r, const std::string& origText, const std::string& tag = "") {
-    std::string key = "C19." + r.stage + "." + src + "." + (r.what == "double_overflow" ? std::string("ANY") : cls) + "." + r.what + (r.what == "double_overflow" ? std::string() : tag);
+    const bool anyCls = r.what == "double_overflow" || r.what == "si_range";
+    std::string key = "C19." + r.stage + "." + src + "." + (anyCls ? std::string("ANY") : cls) + "." + r.what + (anyCls ? std::string() : tag);
     std::ostringstream o;
     o << "seed=" << env.seed << " tier=" << (env.thorough ? "thorough" : "quick") << " src=" << src << " id=" << id << " keyword=" << kw << " class=" << cls << " stage=" << r.stage << " what=" << r.what;
     if (!r.where.empty()) o << " where={" << r.where << "}";
@@ -1831,7 +1921,15 @@ void prop19(Reporter& rep, Env& env) {
             {"all_item_multi_summary", "WOPR\n 'A' 2* /\n"},
             {"all_item_multi_tstep", "TSTEP\n 1 2 2* /\n"},
             {"all_item_single_wlist", "WLIST\n '*L' NEW 1* /\n/\n"},
-            {"title_after_pending_default", "EQLDIMS\n 2 /\nTITLE\n abc\n"}};
+            {"title_after_pending_default", "EQLDIMS\n 2 /\nTITLE\n abc\n"},
+            // tables with one dimension per column, in unit systems where the columns' factors differ (after-SI round trip)
+            {"si_field_swof_pvdg", "OIL\nWATER\nGAS\nFIELD\nTABDIMS\n 1 1 /\nSWOF\n 0.2 0 1 7.5\n 0.8 1 0 0 /\nPVDG\n 14.7 178.1 0.0125\n 5000 0.65 0.03 /\nPVDO\n 14.7 1.05 1.2\n 5000 1.01 1.4 /\n"},
+            {"si_lab_sgof_pvto", "OIL\nWATER\nGAS\nLAB\nTABDIMS\n 1 1 /\nSGOF\n 0 0 1 0.5\n 0.7 1 0 0 /\nPVTO\n 0.001 1 1.05 1.2\n 2 1.04 1.3 /\n 0.1 50 1.2 0.9\n 100 1.19 1.0 /\n/\n"},
+            {"si_pvtm_pvtw_rock", "PVT-M\nTABDIMS\n 1 1 /\nPVTW\n 250 1.03 4e-5 0.3 0 /\nROCK\n 250 5e-5 /\nDENSITY\n 800 1000 1.2 /\n"},
+            {"string_with_apostrophe", "GRUPTREE\n D''ARCY FIELD /\n/\n"},
+            // raw-string records with more than `columns` tokens and divisions before the end
+            {"udq_long_define", "UDQ\n DEFINE WUX ( WOPR / 2 ) + WWPR / ( WGPR + 1 ) * 3 - WOPR/2 + 1 /\n DEFINE FUY FOPR / 3 /\n ASSIGN WUA 'A/B' W1 'P*' 'C/D' W2 W3 W4 5 /\n/\n"},
+            {"actionx_long_condition", "ACTIONX\n A1 /\n WOPR 'P1' / 2 + WWPR 'P1' / ( 1 + WGPR 'P1' ) > 0.5 AND /\n FPR < 100 /\n/\nENDACTIO\n"}};
         for (const auto& f : fixed) {
             Outcome oa = parseText(f.second);
             rep.count("fixed.decks");
